@@ -249,6 +249,8 @@ class Explorer:
                     return Conc(("ext", f"{mn}.{attr}"))
                 return g
             if isinstance(o, ExcVal):
+                if ("getattr", "conc:ExcVal", attr) in self.reg.stubs:
+                    return self.reg.stubs[("getattr", "conc:ExcVal", attr)]
                 if attr == "args":
                     return lambda run, ob, node: VTuple(o.args)
             if isinstance(o, tuple) and o[0] == "class":
